@@ -12,6 +12,7 @@ import (
 	"encoding/json"
 	"encoding/xml"
 	"fmt"
+	"io"
 	"mime"
 	"net/http"
 	"sort"
@@ -19,6 +20,7 @@ import (
 	"strings"
 
 	goahttp "goa.design/goa/v3/http"
+	goamw "goa.design/goa/v3/http/middleware"
 )
 
 var (
@@ -87,6 +89,7 @@ type universe struct {
 	probe   []int   // URLs built from every pattern with the reduced menus + a few foreign paths
 	strict  [][]bool
 	lenient [][]bool
+	empty   [][]bool // matchEmptyCapture (ref.go)
 }
 
 // parseReq runs the real net/http server-side request parser over a raw request.
@@ -195,12 +198,15 @@ func newUniverse(pats []pat, mn menus) (*universe, error) {
 	// it was built from, and the captures decode to the values that were substituted.
 	u.strict = make([][]bool, len(pats))
 	u.lenient = make([][]bool, len(pats))
+	u.empty = make([][]bool, len(pats))
 	for pi := range pats {
 		u.strict[pi] = make([]bool, len(u.urls))
 		u.lenient[pi] = make([]bool, len(u.urls))
+		u.empty[pi] = make([]bool, len(u.urls))
 		for ui, uc := range u.urls {
 			ok, _ := match(&pats[pi], uc.RawSegs, false)
 			u.strict[pi][ui] = ok
+			u.empty[pi][ui] = matchEmptyCapture(&pats[pi], uc.RawSegs)
 			u.lenient[pi][ui] = ok || lenientMatch(&pats[pi], uc.RawSegs, uc.DecRaw, uc.DecSegs)
 		}
 	}
@@ -230,6 +236,32 @@ const (
 
 var mwNames = []string{"none", "pre", "post"}
 
+// frontKind is the goa runtime middleware mounted with Use in front of the router (before the
+// observing middleware): the environment dimension "what sits between the client and the
+// pattern matching". Both are the middlewares of goa's http/middleware package that consult
+// the router themselves.
+type frontKind int
+
+const (
+	frontNone  frontKind = iota
+	frontSRS             // middleware.SmartRedirectSlashes: redirects a request that matches no pattern to the same path with a trailing slash added/removed when that matches
+	frontDebug           // middleware.Debug(mux, w): asks Muxer.Vars before routing and wraps the ResponseWriter
+)
+
+var frontNames = []string{"none", "smart-redirect-slashes", "debug"}
+
+func frontByName(n string) frontKind {
+	for i, f := range frontNames {
+		if f == n {
+			return frontKind(i)
+		}
+	}
+	if n == "" {
+		return frontNone
+	}
+	return -1
+}
+
 // obs is what one request made observable.
 type obs struct {
 	Handlers []int             `json:"handlers"`
@@ -250,7 +282,7 @@ var obsKey = obsKeyT{}
 
 // buildMux registers the elements on a fresh goa Muxer. useAfter registers the middleware
 // after the handlers instead of before. A panic of Use/Handle is returned as text.
-func (u *universe) buildMux(E []element, mode mwMode, useAfter bool) (m goahttp.ResolverMuxer, panicked string) {
+func (u *universe) buildMux(E []element, mode mwMode, useAfter bool, front frontKind) (m goahttp.ResolverMuxer, panicked string) {
 	defer func() {
 		if r := recover(); r != nil {
 			panicked = fmt.Sprint(r)
@@ -272,6 +304,12 @@ func (u *universe) buildMux(E []element, mode mwMode, useAfter bool) (m goahttp.
 				o.MwPostN++
 			}
 		})
+	}
+	switch front {
+	case frontSRS:
+		m.Use(goamw.SmartRedirectSlashes)
+	case frontDebug:
+		m.Use(goamw.Debug(m, io.Discard))
 	}
 	if mode != mwNone && !useAfter {
 		m.Use(mw)
@@ -456,7 +494,7 @@ func checkNotFoundBody(ct string, body []byte) (problem string) {
 // then works on the escaped path), whether a middleware had already asked before routing, and
 // whether a literal segment of the pattern concerned is spelled differently in a URL than in
 // the pattern. Patterns, paths and values themselves are not part of a signature.
-func (u *universe) judge(E []element, mode mwMode, mi, ui int, res result) (fails []failure, outcome string) {
+func (u *universe) judge(E []element, mode mwMode, front frontKind, mi, ui int, res result) (fails []failure, outcome string) {
 	uc := u.urls[ui]
 	o := res.o
 	var nStrict, nLenient, nAny int
@@ -476,8 +514,12 @@ func (u *universe) judge(E []element, mode mwMode, mi, ui int, res result) (fail
 		}
 	}
 	add := func(sig string, format string, a ...any) {
+		if front != frontNone && res.status >= 300 && res.status < 400 {
+			// a redirect: the runtime middleware mounted in front of the router answered
+			sig += " front=" + frontNames[front]
+		}
 		fails = append(fails, failure{sig, func() string {
-			return fmt.Sprintf(format, a...) + " [" + methods[mi] + " " + uc.Raw + " middleware=" + mwNames[mode] + " Path=" + uc.Path + " RawPath=" + uc.RawPath + "]"
+			return fmt.Sprintf(format, a...) + " [" + methods[mi] + " " + uc.Raw + " middleware=" + mwNames[mode] + " front=" + frontNames[front] + " Path=" + uc.Path + " RawPath=" + uc.RawPath + "]"
 		}})
 	}
 	rp := " rawpath=" + rawpathClass(uc)
@@ -486,12 +528,16 @@ func (u *universe) judge(E []element, mode mwMode, mi, ui int, res result) (fail
 	if escLit {
 		lit = " literal=escaped-in-url"
 	}
+	redirected := res.status >= 300 && res.status < 400
 
 	if len(o.Handlers) > 1 {
 		add("dispatch multiple-handlers"+rp+pre, "%d handlers were invoked for one request", len(o.Handlers))
 		return fails, "multiple-handlers"
 	}
-	if mode == mwPre && o.MwPreN != 1 || mode == mwPost && o.MwPostN != 1 {
+	if front != frontNone && redirected && len(o.Handlers) == 0 && o.MwPreN == 0 && o.MwPostN == 0 {
+		// answered by the middleware in front: the observing middleware behind it did not run;
+		// whether the redirect itself is allowed is decided below
+	} else if mode == mwPre && o.MwPreN != 1 || mode == mwPost && o.MwPostN != 1 {
 		add("middleware-not-run-once middleware="+mwNames[mode], "the middleware registered through Use ran before-next=%d after-next=%d times", o.MwPreN, o.MwPostN)
 	}
 
@@ -502,6 +548,8 @@ func (u *universe) judge(E []element, mode mwMode, mi, ui int, res result) (fail
 				"no handler was invoked (status %d) although %d registered %s pattern(s) match the path", res.status, nStrict, methods[mi])
 			return fails, "not-dispatched"
 		case nLenient > 0:
+			// includes what SmartRedirectSlashes is for: the path with a trailing slash added or
+			// removed matches; the statement does not say what such a request receives
 			return fails, "unspecified(match only under a lenient reading) not dispatched status=" + strconv.Itoa(res.status)
 		case nAny > 0:
 			// only patterns registered for another method match: the statement does not say
@@ -562,6 +610,11 @@ func (u *universe) judge(E []element, mode mwMode, mi, ui int, res result) (fail
 	case e.Method != mi:
 		add("dispatch wrong-method", "handler registered for %s %s was invoked for a %s request", methods[e.Method], p.Str, methods[mi])
 		return fails, "wrong-method"
+	case nStrict > 0 && !u.strict[e.Pat][ui] && u.empty[e.Pat][ui]:
+		// the path is also the reached pattern with an empty value substituted (//a = /{x}/a
+		// with x = ""): an ambiguous request; the reported pattern is still the handler's
+		reportAll()
+		return fails, "unspecified(reached pattern matches with an empty single-segment value, another matches strictly) dispatched"
 	case nStrict > 0 && !u.strict[e.Pat][ui]:
 		add("dispatch wrong-handler reached-matches-leniently="+yn(u.lenient[e.Pat][ui])+" reached="+patKind(p)+lit+rp+pre,
 			"handler of %s was invoked, which does not match the path as sent; %d registered pattern(s) do", p.Str, nStrict)
@@ -720,8 +773,10 @@ type caseDesc struct {
 	Method   string     `json:"method"`
 	Path     string     `json:"raw_path"`
 	Accept   string     `json:"accept,omitempty"`
+	Front    string     `json:"front,omitempty"`
 	Server   bool       `json:"real_server,omitempty"`
 	UseAfter bool       `json:"use_after_handle,omitempty"`
+	Ctor     *ctorCase  `json:"path_constructor,omitempty"` // a generated path constructor call (ctor.go) instead of a request
 }
 
 type elemDesc struct {
@@ -729,8 +784,11 @@ type elemDesc struct {
 	Pattern string `json:"pattern"`
 }
 
-func (u *universe) describe(E []element, mode mwMode, mi, ui, ai int, server bool) caseDesc {
+func (u *universe) describe(E []element, mode mwMode, front frontKind, mi, ui, ai int, server bool) caseDesc {
 	cd := caseDesc{Mw: mwNames[mode], Method: methods[mi], Path: u.urls[ui].Raw, Accept: accepts[ai], Server: server}
+	if front != frontNone {
+		cd.Front = frontNames[front]
+	}
 	for _, e := range E {
 		cd.Elements = append(cd.Elements, elemDesc{methods[e.Method], u.pats[e.Pat].Str})
 	}
